@@ -33,7 +33,7 @@ CLAIM = ("For every documented restriction of every public solver class (catalog
          "constructor messages; geometry sets parsed from the help strings at run time; a class missing from the per-class table is a harness "
          "fault) the words new(violating), new(boundary), new(nearest admissible) are executed and, where the constructor stays silent, continued "
          "by a default call to record what the user gets; for every documented time/space domain the word new(valid).call(outside) is executed; "
-         "every parameter vector within K deviations of the default of every hydro family and the default and geometry variants of all other "
+         "every parameter vector within K deviations of the default of every hydro family (K=2 quick / 3 thorough for the cheap ones, one more for the non-hydro closed forms) and the default and geometry variants of all other "
          "classes are called on an in-domain lattice and every returned numeric field is tested for NaN/inf/complex. Model checking over this "
          "finite word set is the right level: the property quantifies over an enumerable catalogue crossed with a three-letter value alphabet.")
 LEVEL_NOTE = ("trusted: the hand transcription of the documentation into xpmc/x_c20_restrictions.py and of in-domain lattices into "
